@@ -30,7 +30,7 @@ func checkC03(cx *Ctx, r *Report) {
 	setterIdx := map[string]int{"value": 1, "name": 1, "friendlyName": 2, "nameFormat": 3, "attributeValue": 4}
 	setter := func(m, p string) string { return fmt.Sprintf("param:provider.(*Attributes).%s/#%d", m, setterIdx[p]) }
 	stdValues := []string{setter("SetEmail", "value"), setter("SetFullName", "value"), setter("SetGivenName", "value"), setter("SetSurname", "value"), setter("SetUserID", "value"), setter("SetUsername", "value"), setter("SetCustomAttribute", "attributeValue")}
-	cx.checkFieldSinks(r, "R-VFG", "callback", vf, []fieldSink{
+	cbSinks := []fieldSink{
 		{"samlp.ResponseType", "InResponseTo", []string{reqID}, []string{reqID}, true, ""},
 		{"saml.SubjectConfirmationDataType", "InResponseTo", []string{reqID}, []string{reqID}, true, ""},
 		{"samlp.ResponseType", "Destination", []string{cbURL}, []string{cbURL}, true, ""},
@@ -44,7 +44,9 @@ func checkC03(cx *Ctx, r *Report) {
 		{"provider.Response", "RelayState", []string{relay}, []string{relay}, true, ""},
 		{"provider.Response", "RequestID", []string{reqID}, []string{reqID}, true, ""},
 		{"provider.Response", "Audience", []string{aud}, []string{aud}, true, ""},
-	})
+	}
+	cx.checkFieldSinks(r, "R-VFG", "callback", vf, cbSinks)
+	cx.checkStoresUnconditional(r, "R-MUST", "callback", vf, cbSinks)
 	// the text of the objects stored as Issuer / subject NameID
 	for _, n := range []struct {
 		owner, field string
